@@ -98,7 +98,7 @@ def st3_loop_exits(ctx, rep):
     """the receive loop ends on the Exit marker or on disconnection, and only then"""
     R = "ST3"
     A = ctx.A
-    cl, _ = A.reducer_closure
+    cl = ctx.consumer_body()
     rep.note_fn(cl.path)
     cfg = ctx.prog.cfg(cl)
     recvs = [s for s in ctx.prog.sites(cl) if A.is_recv_wrapper_call(s)]
